@@ -213,6 +213,7 @@ func Main(pkgs []Pkg) {
 		}
 	}
 	driver.SingleThreaded()
+	refcodec.ThoroughBig = w.thorough
 	// map iteration is deterministic throughout (insertion order, rotation 0) unless a check rotates it
 	SetMapRotation(0)
 	sup := schema.NewSupport()
